@@ -65,7 +65,7 @@ def draw_k_n(rng, alg, cls):
         return 2, rng.randint(1, 12)
     big = cls in ("big", "huge", "bignear")
     if alg in ("greedy", "roundrobin", "multifit", "kk"):
-        k = rng.choice([1, 2, 2, 3, 3, 4, 5, 7, 9, 12, 20, 30])
+        k = rng.choice([1, 2, 2, 3, 3, 4, 5, 7, 9, 12, 20, 30] * 3 + [33, 65, 129, 257])
         n = rng.choice([rng.randint(1, 12), rng.randint(1, 12), rng.randint(13, 60), rng.randint(61, 300)])
         if cls == "kgtn":
             n = rng.randint(1, max(1, k - 1)) if k > 1 else 1
